@@ -6,6 +6,10 @@ sys.path.insert(0, os.path.join(ROOT, "tools"))
 from propsconf import PROPS, COMMON_TRUSTED, NOT_YET  # noqa
 
 ids = [json.loads(l)["id"] for l in open(os.path.join(ROOT, "properties.jsonl"))]
+# properties whose check is integrated and committed (one id per line); files of
+# properties still being built are ignored until their id is added here
+CLAIMED = set(l.strip() for l in open(os.path.join(ROOT, "tools", "claimed.txt")) if l.strip())
+PROPS = {k: v for k, v in PROPS.items() if k in CLAIMED}
 checks = []
 for pid in ids:
     if pid not in PROPS:
